@@ -1,4 +1,5 @@
 //@ contract nitrogql_checker::type_system_checker ::fn check_directive
+//@   requires [C05.ts_directive.pre_schema_wf] crate::schema_wf(&definitions.type_system)
 //@   ensures [C05.ts_directive.frame] crate::extends_errs(old(result)@, final(result)@)
 //@   ensures [C05.ts_directive.sound] final(result)@.len() == old(result)@.len() ==> crate::valid_directive_def(d, definitions)
 //@   ensures [C05.ts_directive.complete] crate::valid_directive_def(d, definitions) ==> final(result)@.len() == old(result)@.len()
